@@ -358,6 +358,23 @@ theorem cidcoding_spec (a1 r b1 a2 o b2 : Bytes)
 `codespace_ignored`'s link to the code). -/
 theorem popall_keywords_tied : popallKeywords = Gen.CIDFont.POPALL_KEYWORDS := by decide
 
+/-- From the raw `CIDSystemInfo`: a font without ToUnicode whose Registry / Ordering — written with any surrounding
+white space — name a collection that is not served by the TrueType cmap reads the table `Registry-Ordering` of the
+writing mode of its encoding CMap. -/
+theorem unicode_map_from_cidsysteminfo (a1 r b1 a2 o b2 : Bytes) (enc : String) (hasTTF v : Bool)
+    (hs : ∀ c ∈ a1 ++ b1 ++ a2 ++ b2, isPySpace c = true)
+    (hr : (∀ x, r.head? = some x → isPySpace x = false) ∧ ∀ x, r.getLast? = some x → isPySpace x = false)
+    (ho : (∀ x, o.head? = some x → isPySpace x = false) ∧ ∀ x, o.getLast? = some x → isPySpace x = false)
+    (hn : Gen.CIDFont.TTF_CODINGS.contains (latin1 (r ++ [45] ++ o)) = false) :
+    fontUnicodeMap .absent (some (a1 ++ r ++ b1)) (some (a2 ++ o ++ b2)) enc hasTTF v true
+      = .collection (latin1 (r ++ [45] ++ o)) v := by
+  unfold fontUnicodeMap
+  rw [cidcoding_spec a1 r b1 a2 o b2 hs hr ho]
+  exact collection_map_follows_wmode _ _ _ _ _ hn
+
+example : fontUnicodeMap .absent (some [32, 65, 100, 111, 98, 101]) (some [74, 97, 112, 97, 110, 49, 10]) "90ms-RKSJ-V"
+    false true true = .collection "Adobe-Japan1" true := by decide
+
 /-- A missing or ill-typed Registry / Ordering reads as `unknown`. -/
 theorem cidcoding_unknown : cidCoding none none = unknownBytes ++ [45] ++ unknownBytes := by decide
 
